@@ -138,6 +138,20 @@ def generate(seed: int, tier: str) -> Dict[str, Any]:
             ops.append({"op": "turn", "agent": agents[len(ops) % len(agents)] if ro.chance(0.7) else ro.choice(agents), "text": ro.choice(texts), "turn_id": i, "now_ms": now})
             if ro.chance(0.04):
                 ops[-1]["agent"] = None   # a caller that does not say who is asking (run_t2's default context)
+    if r.chance(0.12):
+        # the same question asked again under another per-slice cap (same agent, text, instant, memory): what was computed for a
+        # roomier slice must not be handed to a tighter one - the used-hits clamp is part of the answer
+        raw["scheduler"] = {"enabled": True, "quantum_ms": 10**9, "budgets": {"wall_ms": 2 * 10**9}}
+        caps = r.sample([None, 0, 1, 2, 3], 2)
+        if caps[0] is not None:
+            raw["scheduler"]["budgets"]["t2_k"] = caps[0]
+        t = {"op": "turn", "agent": r.choice(agents), "text": r.choice(texts), "turn_id": 90, "now_ms": now}
+        ops.append(dict(t))
+        if caps[1] is None:
+            ops.append({"op": "set_cfg", "path": ["scheduler", "budgets", "t2_k"], "delete": True})
+        else:
+            ops.append({"op": "set_cfg", "path": ["scheduler", "budgets", "t2_k"], "value": caps[1]})
+        ops.append(dict(t, turn_id=91))
     return {"world": world, "cfg": raw, "ops": ops}
 
 
@@ -340,8 +354,8 @@ def execute(p: Dict[str, Any]) -> Dict[str, Any]:
                 slice_cap = (getattr(ctx, "slice_budgets", None) or {}).get("t2_k")
                 used = res.retrieved if slice_cap is None else res.retrieved[: max(0, int(slice_cap))]
                 k_used = (res.metrics or {}).get("k_used")
-                if fresh and k_used is not None and slice_cap is not None and int(k_used) > max(0, int(slice_cap)):
-                    bad("used-hits-exceed-slice-cap", "k_used %s > %s; %s" % (k_used, slice_cap, ctxs))
+                if k_used is not None and slice_cap is not None and int(k_used) > max(0, int(slice_cap)):
+                    bad("used-hits-exceed-slice-cap%s" % ("" if fresh else ":cached"), "k_used %s > %s; %s" % (k_used, slice_cap, ctxs))
                 resid = [d.get("id") for d in res.graph_deltas_residual]
                 if len(resid) > cap:
                     bad("residual-cap-exceeded", "%d residual nudges, cap %d; %s" % (len(resid), cap, ctxs))
